@@ -165,18 +165,20 @@ def execute(plan, prop, out, tr):
         out.probe("cond>1e4")
     # ---- costs and solver objects
     lqrs, costs = [], []
+    handed_costs = []       # (tensor handed to a constructor, ..., pristine copies): cost data stays the caller's
     for j in range(2 if c["two"] else 1):
         if c["Qtv"]:
             Q = torch.stack([torch.stack([_spd(s, "Q%d_%d_%d" % (j, b, t), nsc, c["logcond"], dt) for t in range(T)])
                              for b in range(B)])
             p = rng.randn(s, ("p", j), (B, T, nsc), dt)
-            lq = pp.module.LQR(sysm, Q, p, T)
+            lq = pp.module.LQR(sysm, Q, p, T); Qh, ph = Q, p
         else:
             Q1 = torch.stack([_spd(s, "Q%d_%d" % (j, b), nsc, c["logcond"], dt) for b in range(B)])
             p1 = rng.randn(s, ("p", j), (B, nsc), dt)
-            lq = pp.module.LQR(sysm, Q1, p1, T)
+            lq = pp.module.LQR(sysm, Q1, p1, T); Qh, ph = Q1, p1
             Q, p = Q1.unsqueeze(1).expand(B, T, nsc, nsc), p1.unsqueeze(1).expand(B, T, nsc)
         lqrs.append(lq); costs.append((Q.clone(), p.clone()))
+        handed_costs.append((Qh, ph, Qh.clone(), ph.clone()))
     if c["two"]:
         out.probe("two-lqr-share-system")
     mpc = None
@@ -259,7 +261,9 @@ def execute(plan, prop, out, tr):
         try:
             if op == "mpc":
                 if mpc is None:
-                    mpc = pp.module.MPC(sysm, costs[0][0], costs[0][1], T,
+                    mpc_Q, mpc_p = costs[0][0].clone(), costs[0][1].clone()
+                    handed_costs.append((mpc_Q, mpc_p, costs[0][0], costs[0][1]))
+                    mpc = pp.module.MPC(sysm, mpc_Q, mpc_p, T,
                                         stepper=pp.utils.ReduceToBason(steps=6, patience=2, decreasing=1e-4))
                 x, u, cost = mpc(1, x0, u_init=u0)
             else:
@@ -275,6 +279,10 @@ def execute(plan, prop, out, tr):
         tr.ev("solve", i, x, u, cost)
         if not torch.equal(x0, x0b) or (u0 is not None and not torch.equal(u0, u0b)):
             raise Violation("C14.mutation", ctx + ": x_init / u_traj modified", i, "mutation")
+        for Qg, pg_, Q0_, p0_ in handed_costs:
+            if not (torch.equal(Qg, Q0_) and torch.equal(pg_, p0_)):
+                raise Violation("C14.mutation", ctx + ": the cost tensors Q / p handed to the LQR / MPC constructor were modified",
+                                i, "mutation:cost")
         X, U, Cst = npd(x), npd(u), npd(cost)
         if X.shape != (B, T + 1, ns) or U.shape != (B, T, nc) or Cst.shape != (B,):
             raise Violation("C14.shape", ctx + ": shapes x%s u%s cost%s" % (X.shape, U.shape, Cst.shape), i, "shape")
